@@ -74,7 +74,11 @@ func (o *Oblig) coverQF() string {
 // preconditions, of loop invariants assumed at loop heads and of earlier postconditions used as lemmas. Dropping
 // hypotheses is sound for `unsat`; many obligations follow from callee postconditions and definitions alone, and the
 // small query is decided instantly where the full one makes the solver wander. Returns "" when nothing is dropped.
-func (o *Oblig) slimScript() string {
+func (o *Oblig) slimScript() string { return o.sliceScript("RILV", 6) }
+
+// sliceScript: the query without the quantified assumptions whose provenance tag is in drop (sound for `unsat`:
+// fewer hypotheses). Returns "" when fewer than min assumptions would be dropped.
+func (o *Oblig) sliceScript(drop string, min int) string {
 	vc := o.vc
 	if vc == nil || o.Kind == "cover" {
 		return ""
@@ -86,13 +90,13 @@ func (o *Oblig) slimScript() string {
 		if i < len(vc.tags) {
 			t = vc.tags[i]
 		}
-		if (t == 'R' || t == 'I' || t == 'L' || t == 'V') && hasQuant(a) {
+		if t != 0 && strings.IndexByte(drop, t) >= 0 && hasQuant(a) {
 			dropped++
 			continue
 		}
 		body = append(body, a)
 	}
-	if dropped < 6 {
+	if dropped < min {
 		return ""
 	}
 	return buildScript(vc, body, mkAnd(o.Reach, mkNot(o.Goal)), false)
@@ -514,6 +518,17 @@ type solveOpts struct {
 	second   bool // require a second solver to agree (thorough)
 	scratch  string
 	keepFail string // directory to keep failing queries
+	hints    map[string]string // obligation id -> solver variant that discharged it before (tried first; never a verdict)
+}
+
+// portfolio: the solver variants raced when the primary attempt is inconclusive
+var portfolio = []string{"z3-new-noext#1", "z3-new-noext#2", "z3-new-noext#3", "z3-new-noext#4", "z3-new-noext#5", "z3-new-noext#6", "z3-new-noext#7", "cvc5", "z3-new", "z3"}
+
+func variantScript(o *Oblig, j int) string {
+	if o.slimText != "" && j%2 == 1 && strings.HasPrefix(portfolio[j], "z3-new-noext#") {
+		return o.slimText // every other seed works on the slim query
+	}
+	return o.scriptText
 }
 
 func solveAll(obs []*Oblig, opt solveOpts) {
@@ -539,12 +554,68 @@ func solveAll(obs []*Oblig, opt solveOpts) {
 			o.slimText = o.slimScript()
 			o.identText = o.identScript()
 		}
+		if h := opt.hints[o.ID]; strings.HasPrefix(h, "z3-new-noext(slice-") {
+			o.hintName = strings.TrimSuffix(strings.TrimPrefix(h, "z3-new-noext(slice-"), ")")
+			o.hintText = o.sliceScript(o.hintName, 1)
+		}
 	}
 	for i := range obs {
 		ch <- i
 	}
 	close(ch)
 	wg.Wait()
+	// second chance for obligations no configuration decided: slices of the assumption set by provenance
+	// (F frame axioms, E callee postconditions, V callee invariant re-establishment, I loop invariants, L lemmas)
+	{
+		type job struct {
+			o    *Oblig
+			name string
+			text string
+		}
+		var jobs []job
+		for _, o := range obs {
+			if o.Kind == "cover" || o.Verdict == "unsat" || o.Verdict == "sat" || o.vc == nil {
+				continue
+			}
+			seen := map[string]bool{o.scriptText: true, o.slimText: true}
+			for _, d := range []string{"F", "FV", "FEV", "EV", "FIL", "V"} {
+				t := o.sliceScript(d, 1)
+				if t == "" || seen[t] {
+					continue
+				}
+				seen[t] = true
+				jobs = append(jobs, job{o, "slice-" + d, t})
+			}
+		}
+		var mu sync.Mutex
+		var wg2 sync.WaitGroup
+		sem := make(chan struct{}, opt.workers)
+		for ji, j := range jobs {
+			ji, j := ji, j
+			wg2.Add(1)
+			sem <- struct{}{}
+			go func() {
+				defer wg2.Done()
+				defer func() { <-sem }()
+				mu.Lock()
+				done := j.o.Verdict == "unsat"
+				mu.Unlock()
+				if done {
+					return
+				}
+				r := runSolver("z3-new-noext", j.text, opt.timeout, opt.scratch, 2000000+ji, opt.seed)
+				mu.Lock()
+				j.o.Attempts = append(j.o.Attempts, fmt.Sprintf("%s:%s:%.2fs", j.name, r.verdict, r.secs))
+				if r.verdict == "unsat" && j.o.Verdict != "unsat" {
+					j.o.Verdict, j.o.Solver, j.o.Output = "unsat", "z3-new-noext("+j.name+")", r.out
+					j.o.TimeS += r.secs
+					j.o.Slim = true
+				}
+				mu.Unlock()
+			}()
+		}
+		wg2.Wait()
+	}
 	// model search for failed obligations without a model
 	var need []*Oblig
 	for _, o := range obs {
@@ -640,6 +711,35 @@ func solveOne(o *Oblig, id int, opt solveOpts) {
 			return
 		}
 	}
+	if o.hintText != "" {
+		rh := runSolver("z3-new-noext", o.hintText, 30*time.Second, opt.scratch, id+950000, opt.seed)
+		o.Attempts = append(o.Attempts, fmt.Sprintf("hint:slice-%s:%s:%.2fs", o.hintName, rh.verdict, rh.secs))
+		if rh.verdict == "unsat" {
+			o.Verdict, o.Solver, o.TimeS, o.Output = "unsat", "z3-new-noext(slice-"+o.hintName+")", rh.secs, rh.out
+			o.Hinted, o.Slim = true, true
+			return
+		}
+	}
+	if h := opt.hints[o.ID]; h != "" {
+		// the variant that discharged this obligation in an earlier run goes first, with a generous budget: the
+		// same query and seed give the same answer, so a passing obligation keeps passing under load
+		for j, nm := range portfolio {
+			if nm != h {
+				continue
+			}
+			budget := opt.timeout
+			if budget < 30*time.Second {
+				budget = 30 * time.Second
+			}
+			rh := runSolver(nm, variantScript(o, j), budget, opt.scratch, id+900000, opt.seed)
+			o.Attempts = append(o.Attempts, fmt.Sprintf("hint:%s:%s:%.2fs", rh.solver, rh.verdict, rh.secs))
+			if rh.verdict == "unsat" {
+				o.Verdict, o.Solver, o.TimeS, o.Output = "unsat", rh.solver, rh.secs, rh.out
+				o.Hinted = true
+				return
+			}
+		}
+	}
 	r := runSolver("z3-new-noext", script, primary, opt.scratch, id, opt.seed)
 	o.Attempts = append(o.Attempts, fmt.Sprintf("%s:%s:%.2fs", r.solver, r.verdict, r.secs))
 	if r.verdict == "sat" {
@@ -650,15 +750,12 @@ func solveOne(o *Oblig, id int, opt solveOpts) {
 	}
 	if r.verdict != want && !(r.verdict == "sat" || r.verdict == "unsat") {
 		// race the others
-		others := []string{"z3-new-noext#1", "z3-new-noext#2", "z3-new-noext#3", "z3-new-noext#4", "z3-new-noext#5", "z3-new-noext#6", "z3-new-noext#7", "cvc5", "z3-new", "z3"}
+		others := portfolio
 		rc := make(chan solverResult, len(others))
 		ctx, cancel := context.WithCancel(context.Background())
 		for j, nm := range others {
 			nm, j := nm, j
-			sc := script
-			if o.slimText != "" && j%2 == 1 && strings.HasPrefix(nm, "z3-new-noext#") {
-				sc = o.slimText // every other seed works on the slim query
-			}
+			sc := variantScript(o, j)
 			go func() { rc <- runSolverCtx(ctx, nm, sc, opt.timeout, opt.scratch, id+500000+j*100000, opt.seed) }()
 		}
 		for k := 0; k < len(others); k++ {
